@@ -1,7 +1,7 @@
 /-
 C18 — helper lemmas for the reuse dimension: a sequence of `GenerateSchemaRef` calls on one generator keeps the state
-invariant `Inv` as long as no ROOT call is for a pointer type (`finish` enters the root schema under the type itself,
-and the root pointer is not nullable).
+invariant `Inv`. Before the repair of F-C18-7 this failed when a ROOT call was for a pointer type (`finish` entered the
+non-nullable root schema under the pointer type); `finishR` no longer stores that entry.
 -/
 import KinModel.Lemmas.C18Dang
 namespace KinModel.Gen3
@@ -26,8 +26,9 @@ theorem finish_inv_root {Δ : Decls} {o : Opts} {t : GoType} {q : R × St} (hnp 
   | excluded => exact hb.1
   | err => exact hb.1
 
-/-- a root call for a non-pointer type keeps the invariant of the generator state -/
-theorem genRef_root_inv (Δ : Decls) (o : Opts) (f : Nat) (nm : String) (t : GoType) (σ : St) (hnp : isPtr t = false)
+/-- a root call keeps the invariant of the generator state (since the repair of F-C18-7 for pointer types too: their
+    schema is not entered into the type table) -/
+theorem genRef_root_inv (Δ : Decls) (o : Opts) (f : Nat) (nm : String) (t : GoType) (σ : St)
     (hi : Inv Δ o σ) (ha : (genRef Δ o f [] nm t σ).2.anon = false) : Inv Δ o (genRef Δ o f [] nm t σ).2 := by
   cases f with
   | zero => simp only [genRef]; exact hi
@@ -42,11 +43,19 @@ theorem genRef_root_inv (Δ : Decls) (o : Opts) (f : Nat) (nm : String) (t : GoT
       have hnp' : inParents (stripPtr t) [] = false := rfl
       simp only [hnp', Bool.false_eq_true, if_false] at ha ⊢
       have hne : ([] : List GoType) ++ [stripPtr t] ≠ [] := by simp
-      have hqa := (finish_mono t _).2 ha
+      have hqa := (finishR_mono _ t _).2 ha
       have hb := ihB _ _ _ _ _ σ hne (isPtr_stripPtr t) hi hqa
       have hnl : (isPtr t && !([] : List GoType).isEmpty) = false := by simp
       rw [hnl] at hb ⊢
-      exact finish_inv_root hnp hb
+      unfold finishR
+      split
+      · exact hb.1
+      · rename_i hc
+        have hnp : isPtr t = false := by
+          cases h : isPtr t with
+          | false => rfl
+          | true => exact absurd (by simp [h]) hc
+        exact finish_inv_root hnp hb
 
 theorem genSeq_mono (Δ : Decls) (o : Opts) (f : Nat) : ∀ (pre : List GoType) (σ : St), Mono σ (genSeq Δ o f pre σ)
   | [], σ => Mono.refl σ
@@ -54,14 +63,14 @@ theorem genSeq_mono (Δ : Decls) (o : Opts) (f : Nat) : ∀ (pre : List GoType) 
     simp only [genSeq]
     exact Mono.trans ((gen_mono Δ o f).1 [] "_root" t σ) (genSeq_mono Δ o f ts _)
 
-theorem genSeq_inv (Δ : Decls) (o : Opts) (f : Nat) : ∀ (pre : List GoType) (σ : St), rootPtrBeforeB pre = false →
+/-- any history of root calls keeps the invariant -/
+theorem genSeq_inv (Δ : Decls) (o : Opts) (f : Nat) : ∀ (pre : List GoType) (σ : St),
     Inv Δ o σ → (genSeq Δ o f pre σ).anon = false → Inv Δ o (genSeq Δ o f pre σ)
-  | [], σ, _, hi, _ => hi
-  | t :: ts, σ, hp, hi, ha => by
-    simp only [rootPtrBeforeB, List.any_cons, Bool.or_eq_false_iff] at hp
+  | [], σ, hi, _ => hi
+  | t :: ts, σ, hi, ha => by
     simp only [genSeq] at ha ⊢
     have ha1 := (genSeq_mono Δ o f ts _).2 ha
-    exact genSeq_inv Δ o f ts _ hp.2 (genRef_root_inv Δ o f "_root" t σ hp.1 hi ha1) ha
+    exact genSeq_inv Δ o f ts _ (genRef_root_inv Δ o f "_root" t σ hi ha1) ha
 
 /-- termination does not depend on the generator state: the fuel bound of `gen_finite` suffices for a root call from ANY
     state (a type-table hit only shortens the run) -/
